@@ -20,13 +20,15 @@ DupMsgs == IF WithViolations /\ nid > 1 /\ (nid - 1) \in DOMAIN pend THEN {[k |-
 NextSt(id) ==
   IF \E i \in DOMAIN results : results[i].k = "op" /\ results[i].id = id /\ results[i].st = "RIB" /\ id \in DOMAIN pend
   THEN {"FIB", "FIB_FAILED"} ELSE {"RIB", "FAILED"}
-GoodResults == {<<[id |-> i, st |-> s]>> : i \in DOMAIN pend, s \in UNION {NextSt(j) : j \in DOMAIN pend}}
+\* statuses that are no verdict (the deprecated OK, the zero value, an undefined number): they complete nothing
+NonVerdict == IF WithViolations THEN {"OK", "UNSET", "9"} ELSE {}
+GoodResults == {<<[id |-> i, st |-> s]>> : i \in DOMAIN pend, s \in NonVerdict \cup UNION {NextSt(j) : j \in DOMAIN pend}}
                \cup {<<[id |-> i, st |-> "RIB"], [id |-> j, st |-> "RIB"]>> : i, j \in DOMAIN pend}
 BadResults == {<<[id |-> 99, st |-> "FAILED"]>>, <<[id |-> 99, st |-> "RIB"]>>}
               \cup {<<[id |-> 99, st |-> "FAILED"], [id |-> i, st |-> "FAILED"]>> : i \in DOMAIN pend}
               \cup {<<[id |-> i, st |-> "FAILED"]>> : i \in handed \ DOMAIN pend}
 Resps ==
-       {[k |-> "res", results |-> r] : r \in {x \in GoodResults : \A i \in DOMAIN x : x[i].st \in NextSt(x[i].id)}}
+       {[k |-> "res", results |-> r] : r \in {x \in GoodResults : \A i \in DOMAIN x : x[i].st \in NextSt(x[i].id) \cup NonVerdict}}
   \cup {[k |-> "elec", id |-> <<0, 1>>], [k |-> "params_ok"]}
   \cup (IF WithViolations THEN {[k |-> "res", results |-> r] : r \in BadResults} \cup {[k |-> "multi"]} ELSE {})
 
